@@ -318,8 +318,48 @@ impl<'a> Model<'a> {
                 }
                 other => self.kind_err(out, other, &[Kind::String], loc),
             },
-            Desc::Json => Some(MVal::Json(doc.sorted().render())),
+            Desc::Json => {
+                // the serde_json::Value target rebuilds the document; the only thing it cannot
+                // hold is a non-finite float (deliverable by a second value source only)
+                if self.json_target(doc, loc, out) {
+                    Some(MVal::Json(doc.sorted().render()))
+                } else {
+                    None
+                }
+            }
             Desc::Named(i) => self.named(*i, doc, loc, out),
+        }
+    }
+
+    fn json_target(&self, doc: &Doc, loc: &Path, out: &mut Expect) -> bool {
+        match doc {
+            Doc::Float(f) if !f.is_finite() => {
+                self.report(out, ExpClass::Unexpected { contains: None }, loc);
+                false
+            }
+            Doc::Seq(items) => {
+                let mut ok = true;
+                for (i, d) in items.iter().enumerate() {
+                    let c = push(loc, Step::Index(i));
+                    if !self.json_target(d, &c, out) {
+                        ok = false;
+                        out.handovers.push(c);
+                    }
+                }
+                ok
+            }
+            Doc::Map(members) => {
+                let mut ok = true;
+                for (k, d) in members {
+                    let c = push(loc, Step::Key(k.clone()));
+                    if !self.json_target(d, &c, out) {
+                        ok = false;
+                        out.handovers.push(c);
+                    }
+                }
+                ok
+            }
+            _ => true,
         }
     }
 
